@@ -157,10 +157,10 @@ func material(m, keySize, total int) (key, iv, msg []byte) {
 		msg = append(msg, hh[:]...)
 	}
 	// a few structured bytes so that runs of equal bytes occur too
-	for i := 40; i < 60; i++ {
+	for i := 40; i < 60 && i < total; i++ {
 		msg[i] = 0
 	}
-	for i := 130; i < 150; i++ {
+	for i := 130; i < 150 && i < total; i++ {
 		msg[i] = 0xFF
 	}
 	return key, iv, msg[:total]
@@ -388,6 +388,15 @@ func recordStream(class, detail string, c *Case, ncalls, off int) {
 	rep.FailLazy(class, ncalls*1000+off, func() engine.Failure {
 		cc := *c
 		cc.Calls = append([]Call(nil), c.Calls...)
+		// the witness is the history up to the failing call
+		k := ncalls
+		if c.Prefix >= 0 {
+			k--
+		}
+		if k >= 0 && k <= len(cc.Calls) {
+			cc.Calls = cc.Calls[:k]
+			cc.Probe = false
+		}
 		return engine.Failure{Detail: fmt.Sprintf("key %d bytes, material %d: %s", c.KeySize, c.Material, detail), Case: cc}
 	})
 }
